@@ -210,11 +210,11 @@ func VerifResolve() {
 	// symlinks leaving the image root are not part of any view
 	for i, e := range es {
 		if e.decided && e.kind == kOutside {
+			verifrt.Reach("outside-root-symlink")
 			ents, _ := fsys.ReadDir(path.Dir(paths[i]))
 			for _, d := range ents {
 				verifrt.Assert(d.Name() != path.Base(paths[i]), "a symlink whose target leaves the image root is not in the view")
 			}
-			verifrt.Reach("outside-root-symlink")
 		}
 	}
 	out.CleanUp()
